@@ -807,7 +807,8 @@ def run_property(prop, tier, seed):
                         ] + tr.model.t.interp.funcs_read
     out["assumptions"] = [
         "engine T: closed-segment containment and Arc::new normalisation are re-implemented exactly in rationals "
-        "(cross-checked against the real crate on %s random neighbourhoods this run)" % out["validation"]["neighbourhoods_compared_with_real_code"],
+        "(decided against the real Line::overlaps / Arc::new by the Kani harnesses kovl_line_overlaps_exact and "
+        "o14_5_arc_new_normalises, and cross-checked against the real crate on %s random neighbourhoods this run)" % out["validation"]["neighbourhoods_compared_with_real_code"],
         "engine T: a character without table entry, a blank and an off-grid cell all contribute Property::empty() "
         "(property_buffer.rs get(..).unwrap_or(empty)) - read, not solved",
     ]
